@@ -40,6 +40,9 @@ def observe(state, n, hb, backend):
     out["var/hbar"] = [state.quad_expectation(k, ph)[1] / hb for k in range(n) for ph in (0, np.pi / 2)]
     if backend != "bosonic":
         out["fock_prob"] = [state.fock_prob([1] * n), state.fock_prob([0] * n)]
+    # dimensionless: photon-number parity of every mode subset
+    import itertools
+    out["parity"] = [float(np.real(state.parity_expectation(list(c)))) for r in range(1, n + 1) for c in itertools.combinations(range(n), r)]
     return out
 
 
